@@ -36,7 +36,7 @@ ASSUME = ["the probe peer is a configured peer that was not used before the prob
 
 SCENARIOS = ["hs-in", "hs-out", "req", "req2", "dwr", "dpr", "node-req"]
 CUTS = ["none", "0", "hdr-mid", "hdr-end", "avp-mid", "last-1", "full"]
-FAULTS = ["eof", "reset", "read-error", "write-error", "connect-fail"]
+FAULTS = ["eof", "reset", "read-error", "write-error", "connect-fail", "dpr-hold"]
 OUTCOMES = ["answer", "none", "raise", "slow", "very-slow"]
 
 
@@ -62,6 +62,12 @@ def inject(w, c, fault):
         w.peer_close(c)
     elif fault == "reset":
         w.peer_reset(c)
+    elif fault == "dpr-hold":
+        # the peer says DPR (and gets its DPA), keeps the connection open while a handler may still be running - its
+        # answer can then no longer be routed - and closes afterwards
+        w.feed_msg(c, {"k": "DPR", "host": c.host or "peer1.example", "hbh": 0xee10, "e2e": 0xee10})
+        w.advance(8)
+        w.peer_close(c)
     elif fault == "read-error":
         c.peer_closed = True
         c.remote.sock.rx_err = 5          # EIO, no FIN
@@ -158,7 +164,7 @@ def run_fault_phase(w, case):
             if cutc == "full" and scenario in ("req", "req2") and case["app_kind"] == "threading":
                 # steps between arrival, worker start, answer submission and flush: let some time pass
                 w.advance(case.get("dwell", 0))
-                if fault in ("eof", "reset") and case.get("dwell", 0) == 0 and \
+                if fault in ("eof", "reset", "dpr-hold") and case.get("dwell", 0) == 0 and \
                         all(o in ("slow", "very-slow") for o in case.get("outcomes", ["answer"])):
                     # the requester is lost while its request is still being handled: no answer is ever sent, so
                     # its retransmission after a reconnect (same end-to-end id, T flag) is a request like any other
@@ -284,7 +290,7 @@ def shard_main(shard, nshards, tier, scale):
         for outcome in OUTCOMES:
             for sc in SCENARIOS:
                 for cutc in CUTS:
-                    for f in FAULTS:
+                    for f in FAULTS[:5]:
                         if (f == "connect-fail") != (sc == "hs-out" and cutc == "none"):
                             if f == "connect-fail":
                                 continue
@@ -307,7 +313,7 @@ def shard_main(shard, nshards, tier, scale):
     # requester lost while its request is being handled; afterwards it reconnects and retransmits that request
     for limit in (0, 1, 2):
         for outcome in ("slow", "very-slow"):
-            for f in ("eof", "reset"):
+            for f in ("eof", "reset", "dpr-hold"):
                 for sc in ("req", "req2"):
                     jobs.append({"app_kind": "threading", "limit": limit, "outcomes": [outcome], "faults": [[sc, "full", f]],
                                  "dwell": 0, "gap": 1, "probe_host": "peer1.example"})
@@ -323,7 +329,7 @@ def shard_main(shard, nshards, tier, scale):
     @st.composite
     def cases(draw):
         kind = draw(st.sampled_from(["basic", "threading", "threading"]))
-        f = st.tuples(st.sampled_from(SCENARIOS), st.sampled_from(CUTS), st.sampled_from(FAULTS[:4]))
+        f = st.tuples(st.sampled_from(SCENARIOS), st.sampled_from(CUTS), st.sampled_from(FAULTS[:4] + ["dpr-hold"]))
         return {"app_kind": kind, "limit": draw(st.integers(0, 3)) if kind == "threading" else 0,
                 "outcomes": draw(st.lists(st.sampled_from(OUTCOMES if kind == "threading" else OUTCOMES[:3]), min_size=1, max_size=4)),
                 "burst": draw(st.integers(0, 3)),
